@@ -82,9 +82,11 @@ def r1(ctx, F, hub):
             ops_ = rt_['args'][:2] if callee(rt_).endswith('rename') else rt_['args'][:1]
             labs = set()
             for op_ in ops_:
+                if hub.path_class(body, op_) == 'staging':
+                    continue        # a file this server created to stage content (under the control directory or next to the live path): not the lock
                 labs |= hub.label_operand(body, op_)
             in_graph = body.path in hub.graph
-            ok = in_graph and labs == {SAFE}
+            ok = in_graph and labs <= {SAFE} and (labs or all(hub.path_class(body, op_) == 'staging' for op_ in ops_))
             ctx.check(ok, 'C03.R1', '%s:%s:request-path-only' % (body.path.split('::{')[0].replace('serve::', '').replace(' ', '_'), callee(rt_).split('::')[-1]),
                       'removes/renames only request paths (through safe_join) and their staging files',
                       'serve.rs removes or renames a path that is not a request path or its staging file (labels %s%s): if this is the commit lock file, '
@@ -332,7 +334,7 @@ def staging_ownership(ctx, F, hub, rid):
             for bb2, t2 in flow_of(body).calls(lambda c: c in ('std::process::id',) or 'rand' in c or 'Uuid' in c or c.endswith('fetch_add')):
                 uniq = True
         ctx.check(exclusive or held or uniq, rid, '%s:staging-ownership' % handler, 'staging file exclusively owned',
-                  'the staging name <dst>.copia-tmp is a pure function of the request path, created with truncate and written outside the lock: two servers '
+                  'the staging name contains nothing unique to this server process (no process id, random or counter part; not created exclusively, not inside the lock): it is a pure function of the request, created with truncate and written outside the lock: two servers '
                   'putting the same path share (and steal) one staging file', term_loc(b, bb))
     if n == 0:
         ctx.missing(rid, 'a staging File::create in the serve graph')
